@@ -31,8 +31,14 @@ def zlit(n):
 
 
 def strlit(s):
-    """packed literal understood by Base.Prelude.U"""
-    return "(U 0x1%s)" % "".join("%06X" % ord(c) for c in s)
+    """string literal understood by Base.Prelude.U"""
+    if s == "":
+        return "(@nil N)"
+    out = []
+    for ch in s:
+        o = ord(ch)
+        out.append(ch if (0x20 <= o <= 0x7D and o != 0x22) else "~%06X" % o)
+    return '(U "%s"%%bs)' % "".join(out)
 
 
 # ------------------------------------------------- constant evaluation (safe)
